@@ -103,6 +103,18 @@ type errVal int
 
 func (e errVal) Error() string { return fmt.Sprintf("E%d", int(e)) }
 
+// Two thirds of the faults wrap a context error (a per-element timeout, a cancelled sub-request) although the
+// stage's own context is alive: a fault is a fault whatever its value is.
+func (e errVal) Unwrap() error {
+	switch int(e) % 3 {
+	case 0:
+		return context.DeadlineExceeded
+	case 1:
+		return context.Canceled
+	}
+	return nil
+}
+
 const tick = 100 * time.Microsecond // one virtual tick: frequencies and intervals are sub-millisecond and not whole milliseconds
 
 // slog handler recording the errors pipe.StdErr logs
@@ -135,7 +147,7 @@ var (
 
 // recorder of user-function calls and gates
 type calls struct {
-	decoy  bool // the recorder of the second instance (which never gets an element), or of a free-running run (whose
+	decoy bool // the recorder of the second instance (which never gets an element), or of a free-running run (whose
 	// goroutines may outlive the run: they get lifted values of their own)
 	mu     sync.Mutex
 	start  time.Time
